@@ -161,6 +161,21 @@ func (e *c28ne) neAt(v ssa.Value, lits []Lit, ctx *c28neCtx, depth int) (bool, s
 				}
 			}
 		}
+		// array[lo:hi] with constant bounds, hi > lo: the compiler checked the bounds
+		// against the array length and the result has hi-lo elements (buf[:8] of a
+		// header buffer handed to a helper)
+		if _, isSlice := x.X.Type().Underlying().(*types.Slice); x.High != nil && !isSlice && c28ConstCap(x.X) {
+			if hi, ok := constInt64(x.High); ok {
+				lo := int64(0)
+				loOK := x.Low == nil
+				if x.Low != nil {
+					lo, loOK = constInt64(x.Low)
+				}
+				if loOK && hi > lo {
+					return true, ""
+				}
+			}
+		}
 		return false, "re-slice " + trunc(desc(v), 80) + " without a length test of the result"
 	case *ssa.MakeSlice:
 		if k, ok := constInt64(x.Len); ok {
